@@ -29,6 +29,9 @@ Alphabet (per tier, see gen_* below)
              <=2-cut (thorough) split of the body.
   consumption per part {skip, stream.read(1), stream.read(), get_data, get_text,
              get_media, stream.read_until(LF)} -- all 7^n tuples.
+  sized      (part S) a part copied out in application-chosen blocks: stream.read(n), then stream.read(blk)
+             until empty; n and the content length sweep across the reader's refill edges, the next part
+             is then read as media.
   limits     max_body_part_count {n-1, n, n+1, 0=off}; max_body_part_buffer_size
              {len-1, len, len+1} for every part length; max_body_part_headers_size
              {H-1, H, H+1} for every part header block size H.
@@ -154,8 +157,27 @@ def _media_obs(v):
     return ('json', repr(v))
 
 
+def _sz(op):
+    _, n, b = op.split(':')
+    return int(n), int(b)
+
+
+def _sz_obs(chunks, reqs):
+    """pass-through reads: what was returned in total, and whether every read before the final empty one returned
+    at least one and at most the requested number of bytes."""
+    ok = all(0 < len(c) <= r for c, r in zip(chunks[:-1], reqs)) and chunks[-1] == b''
+    return ('sz', b''.join(chunks), ok)
+
+
 def consume_sync(part, op):
     try:
+        if op.startswith('sz:'):
+            n, b = _sz(op)
+            chunks, reqs = [part.stream.read(n)], [n]
+            while chunks[-1] and len(chunks) < 5000:
+                chunks.append(part.stream.read(b))
+                reqs.append(b)
+            return _sz_obs(chunks, reqs)
         if op == 'skip':
             return None
         if op == 'read1':
@@ -185,6 +207,13 @@ def consume_sync(part, op):
 
 async def consume_async(part, op):
     try:
+        if op.startswith('sz:'):
+            n, b = _sz(op)
+            chunks, reqs = [await part.stream.read(n)], [n]
+            while chunks[-1] and len(chunks) < 5000:
+                chunks.append(await part.stream.read(b))
+                reqs.append(b)
+            return _sz_obs(chunks, reqs)
         if op == 'skip':
             return None
         if op == 'read1':
@@ -289,6 +318,8 @@ def drive(kind, body, boundary, chunk, transport, ops, opts, budget=3.0):
 def exp_op(op, ctype, content, buf_limit):
     base, _, params = ctype.partition(';')
     base = base.strip()
+    if op.startswith('sz:'):
+        return ('sz', content, True)
     if op == 'skip':
         return None
     if op == 'read1':
@@ -606,6 +637,25 @@ def build_cases(tier, seed):
             add('E', form=f, lo=lo, hi=min(lo + step, n_edits),
                 geos=geometries(f['boundary'], U, ('min', 'min1', None)))
 
+    # ---- S: pass-through reads of a part in application-chosen block sizes: read(n), then read(blk) until empty ----
+    # (a file upload copied to disk); n and the content length sweep across the reader's refill edges
+    for b in bnds:
+        c = len(b) + 4
+        if c <= 8:
+            lens = list(range(0, 3 * c + 4))
+            nsf = lambda L: range(1, L + 2)                                                    # noqa: E731
+            blocks = (1, 2, c - 1, c, c + 1)
+        else:
+            lens = [c + 1, 2 * c + 1, 3 * c + 2]
+            nsf = lambda L: [x for x in list(range(c - 3, c + 4)) + list(range(2 * c - 3, 2 * c + 4)) if x <= L + 1]   # noqa: E731
+            blocks = (1, c - 1, c + 1)
+        conts = [sym.a * L for L in lens]
+        if c <= 8:
+            conts += [sym.a * i + b'\r\n-' + sym.a * j for i in (0, 1, c - 2, c) for j in (0, 1, c)]
+        for cont in conts:
+            f = mkform(sym, b, (cont, sym.json), (1, 2))
+            add('S', form=f, ns=list(nsf(len(cont))), blocks=blocks,
+                geos=geometries(b, [('u', 0), ('u', 1), ('u', 3)], ('min', 'min1') if quick else ('min', 'min1', 'min2')))
     # ---- F: the whole request path (App -> req.get_media()) ---------------------------------------
     for b in bnds:
         for cs, hv in gen_part_lists(sym, b, 2, sym.core(b), 3):
@@ -633,8 +683,9 @@ def report_valid(rep, part, f, body, geo, ops, opts, exp, got, extra=None):
     if kind is None:
         return False
     exc = exc_of(got, kind, j)
-    phase = {'A': 'geometry', 'B': 'cuts', 'C': 'consumption', 'D': 'limit', 'G': 'big'}[part]
-    sig = {'kind': kind, 'parser': geo[0], 'phase': phase, 'op': op_at(ops, max(j, 0)) if kind == 'content' else '',
+    phase = {'A': 'geometry', 'B': 'cuts', 'C': 'consumption', 'D': 'limit', 'G': 'big', 'S': 'sized-reads'}[part]
+    sig = {'kind': kind, 'parser': geo[0], 'phase': phase,
+           'op': op_at(ops, max(j, 0)).split(':')[0] if kind == 'content' else '',
            'exc': exc}
     if part == 'D':
         sig['limit'] = sorted(opts)[0] if opts else ''
@@ -710,6 +761,19 @@ def case_C(case, rep):
         exp = expected(f['parts'], ops, {}, f['style'])
         for geo in case['geos']:
             run_valid(rep, 'C', f, geo, ops, {}, body, exp)
+
+
+def case_S(case, rep):
+    f = case['form']
+    body = form_body(f)
+    selfcheck_form(f, body)
+    for n in case['ns']:
+        for blk in case['blocks']:
+            rep.state()
+            ops = ('sz:%d:%d' % (n, blk), 'media')
+            exp = expected(f['parts'], ops, {}, f['style'])
+            for geo in case['geos']:
+                run_valid(rep, 'S', f, geo, ops, {}, body, exp)
 
 
 def case_D(case, rep):
@@ -1022,7 +1086,7 @@ def case_H(case, rep):
                           % (value, n, body, kind, _short(exp), _short(got)))
 
 
-CASE_FUNCS = {'H': case_H, 'A': case_A, 'B': case_B, 'C': case_C, 'D': case_D, 'E': case_E, 'F': case_F, 'G': case_G}
+CASE_FUNCS = {'H': case_H, 'A': case_A, 'B': case_B, 'C': case_C, 'D': case_D, 'E': case_E, 'F': case_F, 'G': case_G, 'S': case_S}
 _CASES = []
 
 
@@ -1047,6 +1111,8 @@ def weight(case):
         return len(case['geos']) * 7 ** case['n']
     if p == 'D':
         return len(case['geos']) * len(case['settings'])
+    if p == 'S':
+        return len(case['geos']) * len(case['ns']) * len(case['blocks'])
     if p == 'E':
         return (case['hi'] - case['lo']) * len(case['geos']) * 2
     if p == 'F':
